@@ -68,6 +68,12 @@ const vrdPhantomToml = `
             Weight = 9
             RandomizeDstPort = %v
             Subnets = ["192.122.190.0/24", "2001:48a8:687f:1::/64"]
+    [Networks.2]
+        Generation = 2
+        [[Networks.2.WeightedSubnets]]
+            Weight = 9
+            RandomizeDstPort = %v
+            Subnets = ["192.122.190.0/24", "2001:48a8:687f:1::/64"]
 `
 
 type vrdSubnetDef struct {
@@ -134,6 +140,7 @@ type vrdReq struct {
 	Randomize bool   `json:"randomize"`
 	Pid       string `json:"pid"`
 	Forged    string `json:"forged"`
+	Outdated  bool   `json:"outdated"` // the client's ClientConf generation is behind the registrar's (front ends attach theirs)
 }
 type vrdCfg struct {
 	Ovr     string `json:"ovr"`
@@ -214,7 +221,7 @@ func vrdNewEnv() (*vrdEnv, error) {
 	os.Stdout = devnull
 	for _, rnd := range []bool{false, true} {
 		p := filepath.Join(dir, fmt.Sprintf("phantoms_%v.toml", rnd))
-		if err := os.WriteFile(p, []byte(fmt.Sprintf(vrdPhantomToml, rnd)), 0o644); err != nil {
+		if err := os.WriteFile(p, []byte(fmt.Sprintf(vrdPhantomToml, rnd, rnd)), 0o644); err != nil {
 			os.Stdout = saved
 			return nil, err
 		}
@@ -538,7 +545,14 @@ func (e *vrdEnv) runVia(q vrdReq, c vrdCfg, cc *vrdConcrete, drawSeed int64, res
 	}
 	frr := fw.GetRegistrationResponse()
 	v.Fwd.Response = a.rr(frr)
-	if !proto.Equal(frr, resp) {
+	// what the client is told = what the stations are told; for an outdated client (q.Outdated) a front end additionally
+	// attaches its ClientConf - that field, and nothing else, may differ
+	respCmp := resp
+	if q.Outdated && resp.GetClientConf() != nil {
+		respCmp = proto.Clone(resp).(*pb.RegistrationResponse)
+		respCmp.ClientConf = nil
+	}
+	if !proto.Equal(frr, respCmp) {
 		// same abstract class but different concrete value must not pass as equal
 		if v.Fwd.Response == v.Resp {
 			v.Fwd.Response.V4 += "#differs"
@@ -560,7 +574,14 @@ func (e *vrdEnv) runVia(q vrdReq, c vrdCfg, cc *vrdConcrete, drawSeed int64, res
 		}
 	}
 	// the payload must be forwarded as the client sent it
-	if !proto.Equal(fw.GetRegistrationPayload(), cc.c2sw.GetRegistrationPayload()) || !bytes.Equal(fw.GetSharedSecret(), cc.secret) {
+	wantPayload := cc.c2sw.GetRegistrationPayload()
+	if q.Outdated && fw.GetRegistrationPayload().GetDecoyListGeneration() == 2 {
+		// the API front end moves an outdated client's registration to the generation of the ClientConf it hands back
+		wp := proto.Clone(wantPayload).(*pb.ClientToStation)
+		wp.DecoyListGeneration = proto.Uint32(2)
+		wantPayload = wp
+	}
+	if !proto.Equal(fw.GetRegistrationPayload(), wantPayload) || !bytes.Equal(fw.GetSharedSecret(), cc.secret) {
 		detail["payload_changed"] = fmt.Sprint(fw.GetRegistrationPayload())
 	}
 	// ---- station: the real constructor on the forwarded bytes, as parseRegMessage drives it
